@@ -247,6 +247,10 @@ nni_listener_init(nni_listener *l, nni_sock *s, nni_sp_tran *tran)
 		nni_mtx_lock(&listeners_lk);
 		rv = nni_id_alloc32(&listeners, &l->l_id, l);
 		nni_mtx_unlock(&listeners_lk);
+		if (rv != 0) {
+			// do not leave it on the socket's list
+			nni_sock_remove_listener(l);
+		}
 	}
 
 	if (rv == 0) {
